@@ -244,6 +244,33 @@ def audit(ctx, modules, theorems):
     return allok
 
 
+def gen_obligations(ctx, module, path, theorems):
+    """Build a regenerated module (Gen/...) and record one obligation per regenerated theorem.
+    A failing `decide` is attributed to its theorem through the line number of the error."""
+    _built.pop((module,), None)
+    ok, log = lake_build([module])
+    lines = Path(path).read_text().splitlines()
+    where = {}
+    for i, l in enumerate(lines, 1):
+        m = re.match(r'\s*theorem\s+(\S+)', l)
+        if m:
+            where[i] = m.group(1)
+    failed = set()
+    if not ok:
+        for m in re.finditer(r'error: \S*%s:(\d+):\d+' % re.escape(Path(path).name), log):
+            ln = int(m.group(1))
+            cands = [i for i in where if i <= ln]
+            if cands:
+                failed.add(where[max(cands)])
+        if not failed:
+            failed = set(where.values())
+    for t in theorems:
+        short = t.split('.')[-1]
+        ctx.oblige(t, short not in failed, 'gen-decide',
+                   '' if short not in failed else 'regenerated obligation fails:\n' + log[-1500:])
+    return ok
+
+
 _driver_ok = None
 
 
@@ -252,6 +279,11 @@ def driver(lines, timeout=3600):
     global _driver_ok
     if _driver_ok is None:
         _driver_ok = lake_build(['pydl_driver'])
+        if not _driver_ok[0]:
+            # a concurrent lake process can make one attempt fail; try once more before giving up
+            _built.pop(('pydl_driver',), None)
+            time.sleep(2)
+            _driver_ok = lake_build(['pydl_driver'])
     if not _driver_ok[0]:
         raise DriverError('driver does not build:\n' + _driver_ok[1][-3000:])
     exe = LEAN / '.lake' / 'build' / 'bin' / 'pydl_driver'
